@@ -39,6 +39,16 @@ CHECKS = {
         ],
         "assumptions": ["math/big arithmetic and trial division are the reference", "large operands are covered by structured families only (2^k, 2^k+-c, convenient-prime moduli)"],
     },
+    "C02": {
+        "level": "exploration",
+        "units": [unit("c02-root", "root", ["zz_verif_c02_test.go"], "^TestVerifC02", shards={"quick": 12, "thorough": 16})],
+        "assumptions": ["SHA-256 collision resistance is not explored; neighbours are the enumerated menu (bit flips with the stated stride, permutations, sub-lists, splices)"],
+    },
+    "C03": {
+        "level": "exploration",
+        "units": [unit("c03-root", "root", ["zz_verif_c03_test.go"], "^TestVerifC03", shards={"quick": 12, "thorough": 16})],
+        "assumptions": ["holders do not know ord(QR_n); equalisers that need it are not part of the adversary class"],
+    },
     "_FIX": {
         "level": "other",
         "units": [unit("genfix", "root", [], "^TestVerifGenFixtures$", env={"VERIF_GENFIX": "1"}, timeout=1800)],
